@@ -9,8 +9,8 @@ from ..sx import explore, ex, PathAbort
 from . import c04
 
 A, B, C = c04.A, c04.B, "/'g'/'c'"
-PATHS_EAGER = ['slice_all', 'ellipsis', 'read_data', 'data', 'iter', 'index', 'raw_data', 'read_unscaled', 'window']
-PATHS_LAZY = ['slice_all', 'ellipsis', 'read_data', 'iter', 'index', 'chan_chunks', 'file_chunks', 'read_unscaled', 'window']
+PATHS_EAGER = ['slice_all', 'ellipsis', 'read_data', 'data', 'iter', 'index', 'raw_data', 'read_unscaled', 'window', 'raw_after_scaled']
+PATHS_LAZY = ['slice_all', 'ellipsis', 'read_data', 'iter', 'index', 'chan_chunks', 'file_chunks', 'read_unscaled', 'window', 'raw_after_scaled']
 
 MANIFEST = dict(
     category='model_checking',
@@ -64,6 +64,15 @@ def shapes():
     # the same channels re-listed in a different order with different lengths (index cache keyed by the ordered list)
     out.append([s1.seg([[A, 'full', 3, 2], [B, 'full', 2, 1]], 1), s1.seg([[B, 'full', 2, 3], [A, 'full', 3, 1]], 2),
                 s1.seg([[A, 'full', 3, 2], [B, 'full', 2, 1]], 1), s1.seg([[A, 'full', 3, 2], [B, 'full', 2, 1]], 2)])
+    # float64 channel with a Strain scale, int32 channel with a Linear scale (scaled access must not disturb raw access)
+    strain = [['NI_Number_Of_Scales', 7, 1], ['NI_Scale[0]_Scale_Type', 0x20, 'Strain'], ['NI_Scale[0]_Strain_Configuration', 7, 10183],
+              ['NI_Scale[0]_Strain_Poisson_Ratio', 10, 0.3], ['NI_Scale[0]_Strain_Gage_Resistance', 10, 350.0],
+              ['NI_Scale[0]_Strain_Lead_Wire_Resistance', 10, 0.0], ['NI_Scale[0]_Strain_Initial_Bridge_Voltage', 10, 0.0],
+              ['NI_Scale[0]_Strain_Gage_Factor', 10, 2.0], ['NI_Scale[0]_Strain_Bridge_Shunt_Calibration_Gain_Adjustment', 10, 1.0],
+              ['NI_Scale[0]_Strain_Voltage_Excitation', 10, 2.5], ['NI_Scale[0]_Strain_Input_Source', 7, 0xFFFFFFFF]]
+    lin = [['NI_Number_Of_Scales', 7, 1], ['NI_Scale[0]_Scale_Type', 0x20, 'Linear'], ['NI_Scale[0]_Linear_Slope', 10, 2.0],
+           ['NI_Scale[0]_Linear_Y_Intercept', 10, 1.0], ['NI_Scale[0]_Linear_Input_Source', 7, 0xFFFFFFFF]]
+    out.append([s1.seg([[A, 'full', 10, 2, strain], [B, 'full', 3, 2, lin]], 2), s1.seg([[A, 'full', 10, 1], [B, 'full', 3, 1]], 1)])
     # timestamps interleaved with int64
     out.append([s1.seg([[A, 'full', 0x44, 2], [B, 'full', 4, 2]], 2, inter=True)])
     return out
@@ -81,6 +90,10 @@ def tasks(tier, seed):
                 for raw_ts in ((False, True) if has_ts else (False,)):
                     ts.append(dict(shape=sh, sid=si, channel=path, mode=mode, raw_ts=raw_ts))
     return ts
+
+
+def _is_scaled(shape, path):
+    return any(o[0] == path and len(o) > 4 and any(p[0].startswith('NI_Scale') for p in (o[4] or [])) for sg in shape for o in sg['objs'])
 
 
 def _expected(enc, path, raw_ts):
@@ -152,6 +165,16 @@ def access(tf, ch, kind, ctx_int, n, tcode, raw_ts, eager, args=None):
         return _canon(ch.raw_data, tcode, raw_ts), None
     if kind == 'read_unscaled':
         return _canon(ch.read_data(scaled=False), tcode, raw_ts), None
+    if kind == 'raw_after_scaled':
+        # unscaled data obtained AFTER the scaled data has been produced once (scaling must not touch what it reads)
+        if eager:
+            ch.data
+            ch[:]
+            return _canon(ch.raw_data, tcode, raw_ts), None
+        for c in ch.data_chunks():
+            c[:]
+            c[:]
+        return _canon(ch.read_data(scaled=False), tcode, raw_ts), None
     if kind == 'iter':
         return [_one(v, tcode, raw_ts) for v in ch], None
     if kind == 'index':
@@ -198,6 +221,8 @@ def run_task(task):
     n = len(full)
     gname, cname = tm.split_path(path)
     kinds = PATHS_EAGER if eager else PATHS_LAZY
+    if _is_scaled(task['shape'], path):
+        kinds = [k for k in kinds if k in ('raw_data', 'read_unscaled', 'raw_after_scaled')]
 
     def fn(ctx):
         k = ctx.choice('path', len(kinds))
@@ -266,6 +291,8 @@ def replay(art):
     n = len(full)
     gname, cname = tm.split_path(path)
     kinds = PATHS_EAGER if eager else PATHS_LAZY
+    if _is_scaled(task['shape'], path):
+        kinds = [k for k in kinds if k in ('raw_data', 'read_unscaled', 'raw_after_scaled')]
     kind = kinds[inp.get('path', 0)]
 
     def ctx_int(name, lo=None, hi=None):
